@@ -48,6 +48,19 @@ def run_case(c):
         res["h_" + tag] = rb(t, h)
         res["cp_" + tag] = rb(pt, cp)
         res["cpview_" + tag] = rb(pt, PT._from_buffer(cb, coff))
+    res["srcpart_0"] = rb(pt, part)
+    if c.get("first_relayout_copy") and c.get("newp") is not None:
+        # 0'. the COPY is assigned an object of its class of the same size laid out differently; the handle the copy was
+        #     made FROM must not notice
+        try:
+            cp._update(X.to_input(pt, c["newp"], "xobj"))
+            res["copy_relayout"] = "ok"
+        except BaseException as e:  # noqa
+            res["copy_relayout"] = X.exc_class(e)
+        res["srcpart_after_copy_relayout"] = rb(pt, part)
+        res["src_extent_after"] = [int(part._offset), int(part._size)]
+        res["h_after_copy_relayout"] = rb(t, h)
+        return res
     observe("0")
     # 1. re-lay-out the original: an ancestor of the copied part gets another object of its class
     q = [tuple(s) for s in c["q"]]
